@@ -228,7 +228,12 @@ pub fn run_case(c: &CliCase, root: &Path, cli: &Path) -> Result<Result<(&'static
     paths.insert(std_inc);
     let lib = build_file(p.src_abs.clone(), paths);
     let before = snapshot(root);
-    let out = Command::new(cli)
+    // (a tool that does not come back is C16's subject; here it is a machinery failure, exit 2)
+    let out = Command::new("timeout")
+        .arg("-k")
+        .arg("5")
+        .arg("300")
+        .arg(cli)
         .args(&p.args)
         .current_dir(root)
         .env("HOME", root.join("cfg"))
@@ -236,6 +241,9 @@ pub fn run_case(c: &CliCase, root: &Path, cli: &Path) -> Result<Result<(&'static
         .env("RUST_BACKTRACE", "0")
         .output()
         .map_err(|e| format!("cannot run the CLI: {}", e))?;
+    if out.status.code() == Some(124) || out.status.code() == Some(137) {
+        return Err(format!("the command-line tool did not finish within 300 s (args {:?})", p.args));
+    }
     let after = snapshot(root);
     let code = out.status.code();
     let diag = format!("{}{}", String::from_utf8_lossy(&out.stdout), String::from_utf8_lossy(&out.stderr));
